@@ -58,6 +58,10 @@ where
             self.high = val;
             self.low = val;
         }
+        // only the most recent output is ever read again
+        if self.q_out.len() > 1 {
+            self.q_out.pop_front();
+        }
         if self.q_vals.len() >= self.window_len {
             let old_val = self.q_vals.pop_front().unwrap();
             // update high and low values if needed
